@@ -69,7 +69,7 @@ def install(w):
                props={"C16"})
     w.contract(f"{M}.serialize_string", params={"output_value": "dyn"}, returns="dyn",
                ensures=["is_str(result)", "implies(is_str(output_value), same(result, output_value))"],
-               raises=["Exception"], props={"C16"})
+               raises=["ValueError", "Exception"], props={"C16"})
     w.contract(f"{M}.coerce_string", params={"input_value": "dyn"}, returns="dyn",
                ensures=["is_str(result)", "same(result, input_value)"], raises=["GraphQLError"],
                on_raise={"GraphQLError": ["not is_str(input_value)"]}, props={"C16", "C15"})
@@ -84,14 +84,16 @@ def install(w):
                ensures=["is_bool(result)", "same(result, input_value)"], raises=["GraphQLError"],
                on_raise={"GraphQLError": ["not is_bool(input_value)"]}, props={"C16", "C15"})
     w.contract(f"{M}.coerce_id_from_number", params={"value": "dyn"}, returns="str",
-               requires=["Numeric(value)"], ensures=["is_str(result)"], raises=["Exception"],
-               props={"C16", "C15"})
+               requires=["Numeric(value)"], ensures=["is_str(result)"],
+               # str(int) raises ValueError above the interpreter's digit limit
+               raises=["GraphQLError", "ValueError"], props={"C16", "C15"})
     w.contract(f"{M}.serialize_id", params={"output_value": "dyn"}, returns="dyn",
                ensures=["is_str(result)", "implies(is_str(output_value), same(result, output_value))"],
-               raises=["Exception"], props={"C16"})
+               raises=["ValueError", "Exception"], props={"C16"})
     w.contract(f"{M}.coerce_id", params={"input_value": "dyn"}, returns="dyn",
                ensures=["is_str(result)", "implies(is_str(input_value), same(result, input_value))"],
-               raises=["Exception"], on_raise={"Exception": ["not is_str(input_value)"]},
+               raises=["ValueError", "Exception"],
+               on_raise={"Exception": ["not is_str(input_value)"], "ValueError": ["not is_str(input_value)"]},
                props={"C16", "C15"})
 
     # ---- output -> input round trip (ghost functions over the contracts above) ---------------------
